@@ -13,7 +13,13 @@ x CODE PATH (the settings that select another branch of forward or of the linear
 max_cholesky_size(0) = conjugate gradients, trace_mode, fast_computations off, eager kernels) along histories of the evaluation-mode call
 protocol enumerated by TLC (first prediction under the path; train() / training-mode calls through the whole forward or through the
 inputs-are-the-inducing-points return / optimizer steps / eval(); load_state_dict(); further predictions under the path or the default
-settings, on the same or on other inputs): every prediction is the closed form for the CURRENT parameters and the inputs of the call."""
+settings, on the same or on other inputs): every prediction is the closed form for the CURRENT parameters and the inputs of the call;
+(g) jitter_val as a constructor argument (TLC's part "jit": not given / the dtype default given / 0.0 / small / large, for every strategy; the lattice cells rotate
+over the same classes) and checkpoints of the version before whitening (state dict without `updated_strategy`, q(u) = N(m, S) stored in the coordinates of u):
+exact on the rational instances (TLC's direct reading, jitter_val 0.0 / 1.0 / 2.0), on seeded models against the closed form of the loaded q(u) and against an
+UnwhitenedVariationalStrategy holding the same (m, S), and as an action LoadLegacy of the evaluation-mode protocol machine on every path cell that contains a
+VariationalStrategy (conversion at an evaluation-mode or training-mode call, through the whole forward or the early return, before / after optimizer steps and
+ordinary loads)."""
 import itertools
 import math
 import os
@@ -26,7 +32,7 @@ from checks import c14_exact as EX
 
 LEVEL = "model_checking"
 PID = "C14"
-QF_INV = ["WellPosed", "DistOK", "UnwhitenedOK", "WhitenedOK", "SameQf", "KLCodeOK", "WhiteKLOK", "PriorOK"]
+QF_INV = ["WellPosed", "DistOK", "UnwhitenedOK", "WhitenedOK", "SameQf", "KLCodeOK", "WhiteKLOK", "LegacyOK", "PriorOK"]
 DIST_OF = dict(chol="Cholesky", mf="MeanField", delta="Delta", nat="Natural", tril="TrilNatural")
 DIAGNOSED = ("C14/BatchDecoupledVariationalStrategy/kl/offset-half-k-log-2pi",
              "C14/BatchDecoupledVariationalStrategy/input-batch-equals-inducing-batch/collapsed",
@@ -43,7 +49,19 @@ CIQ_RT, CIQ_AT = 2e-6, 1e-8          # contour integral quadrature is iterative;
 
 # VariationalQF.tla Variant: every reduction over the NAMED dimension; evaluation-mode protocol: nothing a path retains is read back,
 # load_state_dict() and train() / eval() drop what is memoised
-INTENDED = dict(lmckl="named", imtkl="named", imtmask="to", reuse=False, reusex=False, loadclear=True, modeclear=True)
+# legacy checkpoints: the action is switched on per run; the conversion reads the strategy's own jitter_val; jarg: the constructor argument of the
+# machine's strategy (an explicit value different from the dtype default: the only class on which the source of the jitter matters)
+INTENDED = dict(lmckl="named", imtkl="named", imtmask="to", reuse=False, reusex=False, loadclear=True, modeclear=True,
+                legacy=False, convjit="self", jarg="large")
+JARGS = ("none", "dflt", "zero", "small", "large")          # VariationalQF.tla JitArgs (compared with TLC's part "jit" on every run)
+SIG_LEGACY = "C14/%s/legacy-checkpoint/%s"
+
+
+def legacy_load(model, donor=None):
+    """load_state_dict() of a checkpoint written before the whitened parameterisation: no `updated_strategy` entry, the variational parameters
+    are q(u) in the coordinates of u"""
+    sd = {q: v.detach().clone() for q, v in (donor if donor is not None else model).state_dict().items() if not q.endswith("updated_strategy")}
+    return model.load_state_dict(sd)
 
 
 def write_mc(workdir, name, part, instances=(), invariants=(), maxhist=5, clear=True, variant=None):
@@ -559,6 +577,36 @@ def run_rational(case):
         else:
             cell.close("same-qu-mean@rational", g2["mean"], ref["mean"], sig="C14/whitened-vs-unwhitened/mean")
             cell.close("same-qu-cov@rational", g2["cov"], ref["cov"], sig="C14/whitened-vs-unwhitened/cov")
+    if strat == "VariationalStrategy" and distcls in CM.LEGACY_DISTS:
+        # legacy checkpoint: the instance's parameters ARE q(u) (direct reading, TLC's `d`), stored without the updated_strategy entry; jitter_val = j
+        # is explicit (0.0, 1.0, 2.0).  The whitened parameters depend on Z: the parameter module has the batch shape of Z and the parameters.
+        cfgl = dict(cfg, bp=bt(bz or bp))
+        ok, ml = core.guarded(lambda: CM.build(cfgl, Z, (i0["w"], i0["b"])))
+        if not ok:
+            cell.add("legacy-build", False, str(ml), sig=SIG_LEGACY % (strat, "raises"))
+            return cell.results
+        raws = [raw_of_instance(torch, distcls, insts[key(0, e[1], 0)]) for e in (elems if (bz or bp) else elems[:1])]
+        CM.write_raw(distcls, ml.variational_strategy._variational_distribution, tuple(stack(torch, [r[q] for r in raws]) for q in range(len(raws[0]))))
+        want = dict(mean=[], cov=[], kl=[])
+        for e in elems:
+            r = outs[key(*e)]["d"]
+            want["mean"].append(fvec(torch, r["mean"]))
+            want["cov"].append(fmat(torch, r["cov"]) + CM.FACTS[strat]["xjit"] * float(j) * CM.eye(X.shape[-2]))
+            want["kl"].append(torch.tensor(kl_from_pieces(r["kl"], k), dtype=D))
+        refl = {q: stack(torch, v) for q, v in want.items()}
+
+        def lcall():
+            legacy_load(ml)
+            first = call_model(torch, ml, X, "eval", strat)
+            return first, call_model(torch, ml, X, "eval", strat)
+        ok, gl = core.guarded(lcall)
+        if not ok:
+            cell.add("legacy-raises", False, str(gl), sig=SIG_LEGACY % (strat, "raises"))
+            return cell.results
+        for tag, g1 in zip(("legacy-first-call", "legacy-second-call"), gl):
+            cell.close("eval-mean@" + tag, g1["mean"], refl["mean"], sig=SIG_LEGACY % (strat, "mean"))
+            cell.close("eval-cov@" + tag, g1["cov"], refl["cov"], sig=SIG_LEGACY % (strat, "cov"))
+            cell.close("eval-kl@" + tag, g1["kl"], refl["kl"], sig=SIG_LEGACY % (strat, "kl"))
     return cell.results
 
 
@@ -882,6 +930,58 @@ def run_same_qu(cfg):
     return cell.results
 
 
+def run_legacy(cfg):
+    """(g) a whitened strategy that loaded q(u) = N(m, S) from a checkpoint of the version before whitening (no updated_strategy entry) gives the q(f) /
+    KL of that q(u): against the closed form (direct reading of the checkpoint's parameters, the strategy's jitter_val everywhere) and against an
+    UnwhitenedVariationalStrategy holding the same (m, S); cfg["first"]: the mode of the call that triggers the conversion"""
+    torch = core.setup_torch()
+    from checks import c14_models as CM
+    strat, dist = "VariationalStrategy", cfg["dist"]
+    cell = Cell("C14/%s/legacy-checkpoint" % strat, "legacy checkpoint (first call in %s mode): %s" % (cfg["first"], cell_desc(cfg)), dict(kind="legacy", cfg=cfg),
+                ["legacy", dist, list(cfg["bz"]), list(cfg["bp"]), list(cfg["bx"]), cfg["kernel"], cfg.get("jarg"), cfg["first"]])
+    cfg2, (mw, X) = setup_retry(torch, dict(cfg, strat=strat))
+    j = CM.jit(cfg2)
+    vs = mw.variational_strategy
+    Z = vs.inducing_points.detach().clone()
+    raw = CM.read_raw(dist, vs._variational_distribution)
+    qu = CM.dist_moments(dist, raw)                              # what the checkpoint describes
+    ocfg = dict(cfg2, qu_direct=qu)
+    k_ind = Z.shape[-2]
+    sig_for = lambda what: SIG_LEGACY % (strat, what)
+    ok, r = core.guarded(lambda: legacy_load(mw))
+    if not ok:
+        cell.add("load-raises", False, str(r), sig_for("raises"))
+        return cell.results
+    modes = ("train", "eval", "eval") if cfg["first"] == "train" else ("eval", "eval", "train")
+    for n, mode in enumerate(modes):
+        ok, got = core.guarded(lambda: call_model(torch, mw, X, mode, strat))
+        if not ok:
+            cell.add("raises", False, "call %d (%s mode): %s" % (n, mode, got), sig_for("raises"))
+            return cell.results
+        ref = CM.oracle(ocfg, mw, X, mode)
+        compare_output(torch, cell, "legacy-call%d" % n, strat, dist, got, ref, mode, k_ind, cfg=cfg2, alts=alt_oracles(ocfg, mw, X, mode), sig_for=sig_for)
+        if mode == "eval":
+            geval = got
+    # the unwhitened strategy holding the same parameters
+    cfgu = dict(cfg2, strat="UnwhitenedVariationalStrategy")
+    mu_model = CM.build(cfgu, Z, prior_hyper=cfg2.get("ls"))
+    mu_model.load_state_dict({q: v for q, v in mw.state_dict().items() if "variational_distribution" not in q and "updated_strategy" not in q}, strict=False)
+    CM.write_raw(dist, mu_model.variational_strategy._variational_distribution, raw)
+    ok, gu = core.guarded(lambda: call_model(torch, mu_model, X, "eval", "UnwhitenedVariationalStrategy", want_kl=False))
+    if not ok:
+        cell.add("unwhitened-raises", False, str(gu), "C14/whitened-vs-unwhitened/raises")
+        return cell.results
+    cell.close("same-qu-mean", geval["mean"], gu["mean"].expand(torch.broadcast_shapes(geval["mean"].shape, gu["mean"].shape)), sig=sig_for("vs-unwhitened-mean"))
+    cu = gu["cov"] + j * CM.eye(X.shape[-2])                      # StratInfo.xjit: the whitened strategy adds jitter_val to diag(Kxx), the unwhitened one does not
+    full = torch.broadcast_shapes(geval["cov"].shape, cu.shape)
+    if not core.close(geval["cov"].expand(full), cu.expand(full), RT, AT)[0] and core.close(geval["cov"].expand(full), gu["cov"].expand(full), RT, AT)[0]:
+        cell.results.append(dict(key=cell.keybase + ["cov/drift"], ok=True, nontrivial=False, sig=cell.sigbase, case=None,
+                                 drift="%s: the two strategies agree without the jitter StratInfo puts on diag(Kxx) of the whitened strategy" % cell.desc))
+        return cell.results
+    cell.close("same-qu-cov", geval["cov"], cu.expand(full), sig=sig_for("vs-unwhitened-cov"))
+    return cell.results
+
+
 # ---------------------------------------------------------------------------------------------------------------------
 # (f) code paths of forward x evaluation-mode histories (VariationalQF.tla parts "paths" and "ehist")
 PATHS = ("default", "skipvar", "fastpredvar", "cg", "trace", "nofast", "eager")
@@ -992,8 +1092,17 @@ def run_ehist(case):
         X2 = gen_points(torch, g2, tuple(X.shape[:-2]), X.shape[-2], X.shape[-1])
     inputs = {1: X, 2: X2}
     ver, loads = 1, 0
+    # legacy checkpoints (VariationalQF.tla LoadLegacy): pending = loaded and not called since; snap = the q(u) the checkpoint's parameters encoded (in the
+    # coordinates of u) when the conversion ran - the q(u) every output describes until the parameters change again
+    pending, snap = False, None
+
+    def ocfg_of(c):
+        return dict(c, qu_direct=snap) if snap is not None else c
     for n, (a, flag, xs) in enumerate(hist):
         tag = "step%d-version%d" % (n, ver)
+        if a in ("Predict", "TrainCall") and pending:
+            snap = CM.dist_moments(dist, CM.read_raw(dist, CM.param_module(cfg2, model)))
+            pending = False
         if a == "ToTrain":
             model.train()
         elif a == "ToEval":
@@ -1001,8 +1110,21 @@ def run_ehist(case):
         elif a == "OptStep":
             guarded_step(torch, cfg2, model, g, dist)
             ver += 1
+            snap = None
+        elif a == "LoadLegacy":
+            loads += 1
+            _, (donor, _x) = setup_retry(torch, dict(cfg, seed=cfg["seed"] + 104729 * loads))
+            ok, r = core.guarded(lambda: legacy_load(model, donor))
+            if not ok:
+                cell.add("load-raises", False, "%s: %s" % (tag, r), SIG_LEGACY % (strat, "raises"))
+                break
+            if not well_conditioned(torch, cfg2, model):
+                raise core.Machinery("loaded state is not well conditioned: %r" % (cfg,))
+            ver += 1
+            pending, snap = True, None
         elif a == "LoadState":
             loads += 1
+            pending, snap = False, None
             _, (donor, _x) = setup_retry(torch, dict(cfg, seed=cfg["seed"] + 104729 * loads))
             ok, r = core.guarded(lambda: model.load_state_dict(donor.state_dict()))
             if not ok:
@@ -1038,7 +1160,7 @@ def run_ehist(case):
             if not ok:
                 cell.add("eval-raises@%s-%s" % (tag, what), False, "%s: %s" % (tag, got))
                 break
-            ref = CM.oracle(cfg2, model, Xp, "eval")
+            ref = CM.oracle(ocfg_of(cfg2), model, Xp, "eval")
             if collapsed_input_batch(torch, cell, cfg2, model, Xp, dict(got, var=got["mean"]), "eval"):
                 break
             cell.close("eval-mean@%s-%s" % (tag, what), got["mean"], ref["mean"], rt, at)
@@ -1046,7 +1168,7 @@ def run_ehist(case):
                 rc = ref["cov"]
                 if not _matches(torch, got["cov"], rc, rt, at):
                     hit = None
-                    for ar in alt_oracles(cfg2, model, Xp, "eval")():
+                    for ar in alt_oracles(ocfg_of(cfg2), model, Xp, "eval")():
                         if _matches(torch, got["cov"], ar["cov"], rt, at):
                             hit = ar["ov"]
                             break
@@ -1079,7 +1201,7 @@ def run_ehist(case):
             if not ok:
                 cell.add("train-raises@" + tag, False, "%s: %s" % (tag, got))
                 break
-            ocfg = dict(cfg2, x_is_z=True) if (short and strat == "UnwhitenedVariationalStrategy") else cfg2
+            ocfg = ocfg_of(dict(cfg2, x_is_z=True) if (short and strat == "UnwhitenedVariationalStrategy") else cfg2)
             ref = CM.oracle(ocfg, model, Xc, "train")
             if collapsed_input_batch(torch, cell, cfg2, model, Xc, got, "train"):
                 break
@@ -1219,6 +1341,8 @@ def run_case(case):
         return run_mix(case)
     if kind == "ehist":
         return run_ehist(case)
+    if kind == "legacy":
+        return run_legacy(case["cfg"])
     raise core.Machinery("unknown case kind %r" % kind)
 
 
@@ -1235,6 +1359,11 @@ STRATS_ALL = ("VariationalStrategy", "UnwhitenedVariationalStrategy", "BatchDeco
               "CiqVariationalStrategy", "GridInterpolationVariationalStrategy") + WRAPPERS
 
 
+def CM_JIT(jarg):
+    from checks import c14_models as CM
+    return CM.JIT_VALUES[jarg]
+
+
 def lattice_cfgs(cells, seed, thorough):
     """seeded configurations for every cell of the lattice TLC enumerated"""
     kernels = ["rbf", "matern25", "matern15"]
@@ -1244,7 +1373,9 @@ def lattice_cfgs(cells, seed, thorough):
         bz, bp, bx = list(c["bz"]), list(c["bp"]), list(c["bx"])
         reps = 3 if thorough else 1
         for r in range(reps):
-            base = dict(strat=strat, dist=dist, bz=bz, bp=bp, bx=bx, kernel=kernels[(n + r) % 3], jitter=(None if (n + r) % 2 == 0 else 0.03),
+            # jitter_val rotates over the argument classes of VariationalQF.tla JitArgs (not given / the default given / 0.0 / small / large)
+            jarg = JARGS[(n + r) % len(JARGS)]
+            base = dict(strat=strat, dist=dist, bz=bz, bp=bp, bx=bx, kernel=kernels[(n + r) % 3], jitter=CM_JIT(jarg),
                         seed=seed * 100000 + n * 10 + r)
             if strat == "BatchDecoupledVariationalStrategy":
                 # TLC's MVInfo: the kernel's batch shape and the position of its mean / variance dimension (0: one shared kernel)
@@ -1297,6 +1428,11 @@ def run(ck):
                "points), optimizer step, eval(), load_state_dict()): six required histories (train more through the early return / the whole forward / without a call, "
                "loads, other inputs; quick tier: two of them for every cell, the others rotating over the distributions / bases of a strategy x path) + a rotating sample of the others; every prediction's mean and covariance (where the path produces one) and every training-mode mean / variance "
                "against the closed form for the current parameters and the inputs of the call; "
+               "(g) jitter_val: every strategy x argument class {not given, dtype default given explicitly, 0.0, 0.03, 0.25} of TLC's part jit on the unbatched cell (the lattice cells of "
+               "(b) rotate over the same five classes); legacy checkpoints (state dict without updated_strategy holding q(u) unwhitened): rational instances with jitter_val = 0.0 / 1.0 / 2.0 "
+               "against TLC's exact direct reading (two calls), seeded {Cholesky, Natural, TrilNatural} x batch patterns x argument classes x mode of the converting call against the closed "
+               "form of the loaded q(u) and against UnwhitenedVariationalStrategy on the same parameters, and histories of the protocol machine with LoadLegacy (8 required shapes + "
+               "rotation) on every path cell whose strategy or base strategy is VariationalStrategy; "
                "non-trivial = q(u) differs from the prior or the history contains an optimizer step before an observation (all cases except the q = p instances)")
     ck.assumptions = [
         "jitter is part of the prior the model evaluates to (VariationalQF.tla StratInfo); Kzz + jitter_val I defines p(u) and the whitening and is compared exactly; the "
@@ -1323,6 +1459,11 @@ def run(ck):
         "prior (variational_cholesky_jitter) are not a path here (the jitter-keyed Cholesky factor is a known C03 finding); a training-mode call on inputs equal to the inducing points "
         "is made for the standard, unwhitened and CIQ strategies only (the unwhitened strategy refuses it for a point mass with an explicit RuntimeError; wrappers and the other "
         "strategies take the whole forward instead); CG path: cg_tolerance = eval_cg_tolerance = 1e-12, no preconditioner, 2e-5 relative + 2e-7 absolute",
+        "legacy checkpoints: only for strategies that contain a VariationalStrategy (itself, or as the base of the LMC / independent-multitask / orthogonally decoupled strategies; the "
+        "batch-decoupled subclass never had an unwhitened version) and for distributions that can represent the whitened covariance (Cholesky, Natural, TrilNatural; a mean-field "
+        "module keeps only the diagonal of the whitened covariance and a point mass is not converted at all - both outside the statement); the parameter module has the batch shape of "
+        "the inducing points (the whitened parameters depend on Z); after the converting call and until the next optimizer step / load, the expected q(u) is what the checkpoint's "
+        "parameters encoded in the coordinates of u when the call was made (an optimizer step between the load and the first call moves them in those coordinates)",
         "float64, 2-3 inducing points (rational) / 3 (seeded), cond(Kzz + jitter) <= 1e4 checked on the oracle side, 1e-7 relative + 1e-9 absolute; CIQ with tightened solver "
         "settings at 2e-6 + 1e-8; optimizer step = torch.optim.SGD.step() on seeded pseudo-gradients for every parameter"]
     wd = os.path.join(tlc.BUILD, PID)
@@ -1351,11 +1492,15 @@ def run(ck):
                ("ehist_reusex", "ehist", [], EINV, dict(maxhist=EL, variant=dict(reusex=True))),
                ("ehist_noloadclear", "ehist", [], EINV, dict(maxhist=EL, variant=dict(loadclear=False))),
                ("ehist_nomodeclear", "ehist", [], EINV, dict(maxhist=EL, variant=dict(modeclear=False))),
-               ("ehist_notrainclear", "ehist", [], EINV, dict(maxhist=EL, clear=False)))
-    dumped = ("mix", "lattice", "hist", "paths", "ehist")
+               ("ehist_notrainclear", "ehist", [], EINV, dict(maxhist=EL, clear=False)),
+               ("elegacy_convjit", "ehist", [], EINV, dict(maxhist=EL, variant=dict(legacy=True, convjit="setting"))),
+               ("jit_convjit", "jit", [], ["JitSame"], dict(variant=dict(convjit="setting"))))
+    dumped = ("mix", "lattice", "hist", "paths", "ehist", "jit", "elegacy")
     for name, part, insts, inv, kw in (("mix", "mix", mixes, MIXINV, {}), ("lattice", "lattice", [], [], {}),
                                        ("hist", "hist", [], ["ObservesCurrent"], dict(maxhist=L)),
-                                       ("paths", "paths", [], [], {}), ("ehist", "ehist", [], EINV, dict(maxhist=EL))) + broken:
+                                       ("paths", "paths", [], [], {}), ("ehist", "ehist", [], EINV, dict(maxhist=EL)),
+                                       ("jit", "jit", [], ["JitSame"], {}),
+                                       ("elegacy", "ehist", [], EINV, dict(maxhist=EL, variant=dict(legacy=True)))) + broken:
         mod, cfg = write_mc(wd, name, part, insts, inv, **kw)
         jobs.append(((mod, cfg), dict(name=PID + "/" + name, dump=(name in dumped), check=False, workers=2, coverage=False)))
     rs = tlc.run_many(jobs, parallel=min(12, core.NPROC))
@@ -1367,10 +1512,14 @@ def run(ck):
                "evaluation-mode protocol, a path reads back an input-dependent intermediate result whatever the inputs of the call (must be rejected)",
                "evaluation-mode protocol, load_state_dict() keeps what is memoised (must be rejected)",
                "evaluation-mode protocol, train() / eval() keep what is memoised (must be rejected)",
-               "evaluation-mode protocol without the training-mode clear (must be rejected)"]
+               "evaluation-mode protocol without the training-mode clear (must be rejected)",
+               "evaluation-mode protocol with legacy checkpoints, the conversion whitens with the dtype default of the setting instead of the strategy's jitter_val (must be rejected)",
+               "jitter sites, the conversion reads the setting instead of the strategy's jitter_val (must be rejected)"]
     labels = ["qf chunk %d (exact rationals: code-shaped = denotation)" % q for q in range(nchunk)] + [
         "mix (multitask wrappers, every position of the latent / task dimension)", "lattice", "call protocol",
-        "code paths (strategy x distribution x base x setting)", "evaluation-mode call protocol"] + blabels
+        "code paths (strategy x distribution x base x setting)", "evaluation-mode call protocol",
+        "jitter_val as a constructor argument (strategy x argument class, one value at every site)",
+        "evaluation-mode call protocol with legacy (pre-whitening) checkpoints"] + blabels
     for lab, r in zip(labels, rs):
         ck.add_tlc(r, lab)
     for lab, r in list(zip(labels, rs))[:-len(blabels)]:
@@ -1378,7 +1527,7 @@ def run(ck):
             ck.model_drift("VariationalQF.tla %s violates %s: %s" % (lab, r.violation["name"], str(r.violation["trace"][:1])[:300]))
         elif r.rc != 0:
             raise tlc.TLCError("TLC failed on VariationalQF %s:\n%s" % (lab, r.stdout[-1500:]))
-    for lab, r, want in zip(blabels, rs[-len(blabels):], ("ObservesCurrent", "MixKLOK", "MixKLOK", "MixOK") + ("EObservesCurrent",) * 5):
+    for lab, r, want in zip(blabels, rs[-len(blabels):], ("ObservesCurrent", "MixKLOK", "MixKLOK", "MixOK") + ("EObservesCurrent",) * 6 + ("JitSame",)):
         if not r.violation or r.violation["name"] != want:
             ck.vacuous("%s: TLC did not report a violation of %s" % (lab, want))
     # TLC's exact evaluation, validated against the mirror (a mismatch is a machinery failure)
@@ -1571,6 +1720,82 @@ def run(ck):
             cfg["path"] = pc["path"]
             cases.append(dict(kind="ehist", cfg=cfg, hist=[list(x) for x in h], pinfo=pc["info"]))
             n_eh += 1
+    # (b') jitter_val as a constructor argument: every strategy x argument class of TLC's part "jit" on the unbatched cell, distributions rotating
+    jstates = rs[nchunk + 5].states() if not rs[nchunk + 5].violation else []
+    jcells = sorted((dict(jsonable(st["c"]), info=jsonable(st["out"])) for st in jstates), key=lambda c: (c["strat"], JARGS.index(c["jarg"]) if c["jarg"] in JARGS else -1))
+    if {c["jarg"] for c in jcells} != set(JARGS) or set(CM.JIT_VALUES) != set(JARGS):
+        raise core.Machinery("JitArgs of VariationalQF.tla %s differ from the argument classes the replay knows %s" % (sorted({c["jarg"] for c in jcells}), JARGS))
+    n_jit = 0
+    for n, jc in enumerate(jcells):
+        eff = CM.jit(dict(jitter=CM.JIT_VALUES[jc["jarg"]]))
+        if (jc["info"]["eff"] == "dflt") != (eff == CM.DEFAULT_JITTER) or jc["info"]["explicit"] != (CM.JIT_VALUES[jc["jarg"]] is not None):
+            raise core.Machinery("the oracle's effective jitter for %r differs from JitInfo of VariationalQF.tla" % (jc,))
+        if jc["strat"] == "GridInterpolationVariationalStrategy":
+            continue                                                       # has no jitter_val argument
+        cands = [c for c in hcells if c["strat"] == jc["strat"] and (c["mv"] == 0 or jc["strat"] != "BatchDecoupledVariationalStrategy")]
+        cands = [c for c in cands if c["dist"] != "Delta" or jc["strat"] != "BatchDecoupledVariationalStrategy"]
+        for r in range(2 if thorough else 1):
+            c = cands[(n + r) % len(cands)]
+            for cfg in [x for x in lattice_cfgs([c], ck.seed + 21 + n + r, False) if x.get("task_indices") is None][:1]:
+                cfg["jitter"] = CM.JIT_VALUES[jc["jarg"]]
+                cfg["jarg"] = jc["jarg"]
+                cases.append(dict(kind="seed", cfg=cfg))
+                n_jit += 1
+    if n_jit < 30:
+        ck.vacuous("jitter_val: only %d strategy x argument-class configurations" % n_jit)
+    # (g) legacy checkpoints: distribution x batch pattern (the parameters carry the batch shape of the inducing points) x argument class x mode of the first call
+    n_leg = 0
+    lpats = [(bz, bp, bx) for bz, bp in (([], []), ([], [2]), ([2], [2])) for bx in ([], [2])]
+    for n, (dist, (bz, bp, bx)) in enumerate(itertools.product(CM.LEGACY_DISTS, lpats)):
+        for r in range(len(JARGS) if thorough else 2):
+            jarg = JARGS[(n + (r if thorough else 3 * r + 2)) % len(JARGS)]              # quick: two classes per cell, two apart
+            cases.append(dict(kind="legacy", cfg=dict(strat="VariationalStrategy", dist=dist, bz=bz, bp=bp, bx=bx, kernel=["rbf", "matern25", "matern15"][(n + r) % 3],
+                                                      jitter=CM.JIT_VALUES[jarg], jarg=jarg, first=("eval", "train")[(n + r) % 2], seed=ck.seed * 1000 + 800 + 7 * n + r)))
+            n_leg += 1
+    # (f') legacy checkpoints along histories of the evaluation-mode protocol, on every path cell that contains a VariationalStrategy
+    lhists = set()
+    if not rs[nchunk + 6].violation:
+        for st in rs[nchunk + 6].states():
+            h = tuple((e["a"], bool(e["flag"]), int(e["xs"])) for e in st["out"])
+            acts = [x[0] for x in h]
+            if len(h) == EL and "LoadLegacy" in acts and acts[-1] in ("Predict", "TrainCall") and acts[-1] != "LoadLegacy":
+                lhists.add(h)
+    lhists = sorted(lhists)
+    LL = ("LoadLegacy", False, 0)
+    lmust_prefixes = [(P, LL, P, P2), (P, LL, Pd2, P), (P, TT, LL, TCf, TE, P), (P, TT, LL, TCs, TE, P2), (P, LL, LS, P), (P, TT, LL, OS, TE, P), (P, LL, P, LL, P2),
+                      (P, LS, LL, P)]
+    lmusts = []
+    for mp in lmust_prefixes:
+        hit = [h for h in lhists if h[:len(mp)] == mp]
+        if not hit:
+            ck.vacuous("legacy checkpoints: no generated history starts with %s" % (mp,))
+        else:
+            lmusts.append(hit[0])
+    if len(lmusts) != len(lmust_prefixes):
+        raise core.Machinery("legacy checkpoints: required histories were not generated")
+    lrest = [h for h in lhists if h not in lmusts]
+    n_leh = 0
+    lcells = [pc for pc in pcells if (pc["strat"] == "VariationalStrategy" or pc["base"] == "VariationalStrategy") and pc["dist"] in CM.LEGACY_DISTS]
+    if not lcells or {pc["strat"] for pc in lcells} != {"VariationalStrategy", "OrthogonallyDecoupledVariationalStrategy"} | set(WRAPPERS):
+        ck.vacuous("legacy checkpoints: the path cells that contain a VariationalStrategy are %s" % sorted({pc["strat"] for pc in lcells}))
+    for n, pc in enumerate(lcells):
+        cands = [c for c in hcells if c["strat"] == pc["strat"] and c["dist"] == pc["dist"]]
+        if thorough:
+            pick = lmusts + [h for q, h in enumerate(lrest) if (q + n) % 800 == 0]
+        else:
+            pick = [lmusts[n % len(lmusts)], (lmusts + lrest[(n * 53) % len(lrest):][:1])[(n + 3) % (len(lmusts) + 1)]]
+        for hn, h in enumerate(pick):
+            if pc["path"] == "default":
+                h = tuple((a, True, xs) if a == "Predict" else (a, f, xs) for a, f, xs in h)
+            cfg = [x for x in lattice_cfgs([cands[0]], ck.seed + 31 + n + hn, False) if x.get("task_indices") is None][0]
+            cfg["kernel"] = ["rbf", "matern25", "matern15"][(n + hn) % 3]
+            jarg = ("large", "small", "zero", "none", "dflt")[(n + hn) % 5]
+            cfg.update(jitter=CM.JIT_VALUES[jarg], jarg=jarg, path=pc["path"])
+            if pc["base"] != "none":
+                cfg["base"] = pc["base"]
+            cases.append(dict(kind="ehist", cfg=cfg, hist=[list(x) for x in h], pinfo=pc["info"]))
+            n_leh += 1
+    ck.section("replay", jitter_argument_configurations=n_jit, legacy_checkpoint_configurations=n_leg, legacy_histories=len(lhists), legacy_history_cases=n_leh)
     ck.section("replay", rational_cases=n_rat, mixture_cases=n_mix, lattice_cells=len(cells), seeded_configurations=len(lat) + extra,
                same_qu_configurations=n_same, histories=len(hists), history_cases=n_hist, path_cells=len(pcells), eval_histories=len(ehists),
                eval_history_cases=n_eh)
@@ -1584,6 +1809,9 @@ def run(ck):
                                                 "against a leading dimension of size 2 x (independent wrapper) negative / non-negative task_dim" % len(cells),
                          paths="all %d cells of strategy x distribution x base strategy x code path; the %d evaluation-mode histories of length %d ending in a prediction are "
                                "sampled per cell (quick: 2 required + 2 rotating over the 4 other required ones and the rest; thorough: 6 required + every 100th of the rest, rotating)" % (len(pcells), len(ehists), EL),
+                         jitter="all %d cells of strategy x jitter_val argument class (VariationalQF.tla JitArgs); legacy checkpoints: the %d histories of length %d of the "
+                                "protocol machine that contain a LoadLegacy and end in an observation are sampled per path cell containing a VariationalStrategy "
+                                "(quick: 2 per cell rotating over 8 required shapes and the rest; thorough: the 8 required + every 800th of the rest)" % (len(jcells), len(lhists), EL),
                          histories="all %d training-mode histories of length %d over {Forward, KL, OptStep} that start with a call, contain a step and end with an observation" % (len(hists), L))
     items = [cases[q:q + 6] for q in range(0, len(cases), 6)]
     rnd.shuffle(items)
